@@ -525,12 +525,37 @@ theorem C04_page_values (g : Store) (id : Option Nat) (res mb cb rot : Option Va
   have hm : Normalised (mkPage g id res mb cb rot).mediabox := by
     unfold mkPage
     cases mb with
-    | none => exact us_letter_normalised
-    | some v => exact box_default g v US_LETTER us_letter_normalised
+    | none => simpa [parse_mediabox] using us_letter_normalised
+    | some v =>
+      have := box_default g v US_LETTER us_letter_normalised
+      simp only [parse_mediabox, Option.isNone_some, Bool.false_eq_true, if_false, Option.bind_some]
+      cases h : parseBox g v <;> simpa [h] using this
   refine ⟨(hr _).1, (hr _).2, hm, ?_⟩
   unfold mkPage at hm ⊢
   cases cb with
-  | none => exact hm
-  | some v => exact box_default g v _ hm
+  | none => simpa [parse_cropbox] using hm
+  | some v =>
+    have := box_default g v _ hm
+    simp only [parse_cropbox, Option.isNone_some, Bool.false_eq_true, if_false, Option.bind_some]
+    cases h : parseBox g v <;> simpa [h] using this
+
+/-- **Defaults of `PDFPage.__init__`** (on the regenerated `_parse_mediabox` / `_parse_cropbox`
+structure): a missing or ill-formed MediaBox gives US Letter; a missing or ill-formed CropBox gives
+the page's MediaBox (whatever that turned out to be); a well-formed box gives its normalised value. -/
+theorem C04_box_defaults (g : Store) (id : Option Nat) (res mb cb rot : Option Val) :
+    ((mb = none ∨ ∃ v, mb = some v ∧ parseBox g v = none) → (mkPage g id res mb cb rot).mediabox = US_LETTER) ∧
+    ((cb = none ∨ ∃ v, cb = some v ∧ parseBox g v = none) →
+      (mkPage g id res mb cb rot).cropbox = (mkPage g id res mb cb rot).mediabox) ∧
+    (∀ v r, mb = some v → parseBox g v = some r → (mkPage g id res mb cb rot).mediabox = r) ∧
+    (∀ v r, cb = some v → parseBox g v = some r → (mkPage g id res mb cb rot).cropbox = r) := by
+  refine ⟨?_, ?_, ?_, ?_⟩
+  · rintro (h | ⟨v, h, hp⟩) <;> subst h <;> simp [mkPage, parse_mediabox, *]
+  · rintro (h | ⟨v, h, hp⟩) <;> subst h <;> simp [mkPage, parse_cropbox, *]
+  · intro v r h hp; subst h; simp [mkPage, parse_mediabox, hp]
+  · intro v r h hp; subst h; simp [mkPage, parse_cropbox, hp]
+
+example : (mkPage [] none none none (some (.arr [.atom (.int 1)])) none).cropbox = US_LETTER ∧
+    (mkPage [] none none (some (.arr [.atom (.int 9), .atom (.int 8), .atom (.int 1), .atom (.int 2)])) none none).cropbox
+      = (1, 2, 9, 8) := by decide
 
 end PdfVerif.Props.C04
